@@ -921,6 +921,116 @@ func execNsAddr(f []string) vlib.Res {
 	return vlib.Res{Impl: "addrs=" + listOrDash(hs), Oracle: or, Tags: "nt"}
 }
 
+// ---------------------------------------------------------------- referral glue, then the NS-address lookup
+
+type nsSubQueryer struct {
+	kind  string // F = error, R = response
+	rcode int
+	rrs   []dns.RR
+	asked int
+}
+
+func (q *nsSubQueryer) Query(ctx context.Context, req *dns.Msg) (*dns.Msg, error) {
+	q.asked++
+	if q.kind == "F" {
+		return nil, errors.New("sub-pipeline failed")
+	}
+	m := new(dns.Msg)
+	m.SetReply(req)
+	m.Rcode = q.rcode
+	m.Answer = q.rrs
+	return m, nil
+}
+
+func addrRRs(s, sep string) ([]dns.RR, []gextra) {
+	var rrs []dns.RR
+	var abs []gextra
+	for _, e := range splitList(s, sep) {
+		p := strings.Split(e, "/")
+		g := gextra{owner: p[0], typ: p[1], ip: ipOf(p[2])}
+		abs = append(abs, g)
+		hdr := dns.RR_Header{Name: g.owner, Class: dns.ClassINET, Ttl: 60}
+		switch g.typ {
+		case "A":
+			hdr.Rrtype = dns.TypeA
+			rrs = append(rrs, &dns.A{Hdr: hdr, A: g.ip})
+		case "AAAA":
+			hdr.Rrtype = dns.TypeAAAA
+			rrs = append(rrs, &dns.AAAA{Hdr: hdr, AAAA: g.ip})
+		default:
+			hdr.Rrtype = dns.TypeTXT
+			rrs = append(rrs, &dns.TXT{Hdr: hdr, Txt: []string{"x"}})
+		}
+	}
+	return rrs, abs
+}
+
+// nslookup run <ipv6 t|f> <level> <qname> <hosts|-> <extras|-> <host> <v6lookup t|f> <sub: F | R<rcode>:<rr+rr…|->>
+func execNsLookup(f []string) vlib.Res {
+	ipv6 := f[2] == "t"
+	level := vlib.Atoi(f[3])
+	qname := f[4]
+	hosts := splitList(f[5], ",")
+	resp := new(dns.Msg)
+	resp.Question = []dns.Question{{Name: qname, Qtype: dns.TypeA, Qclass: dns.ClassINET}}
+	extraRRs, extras := addrRRs(f[6], ";")
+	resp.Extra = extraRRs
+	host := f[7]
+	v6lookup := f[8] == "t"
+	sub := &nsSubQueryer{kind: f[9][:1]}
+	var subAbs []gextra
+	if sub.kind == "R" {
+		rc, rrs, _ := strings.Cut(f[9][1:], ":")
+		sub.rcode = vlib.Atoi(rc)
+		sub.rrs, subAbs = addrRRs(rrs, "+")
+	}
+	addrs, err := resolver.VerifC07GlueThenLookup(context.Background(), resp, hosts, level, ipv6, host, v6lookup, sub)
+	var hs []string
+	for _, a := range addrs {
+		hs = append(hs, addrHex(a))
+	}
+	impl := "addrs=" + listOrDash(hs)
+	if err != nil {
+		impl = "err"
+	}
+	// oracle: every address is in-bailiwick glue of the referral for exactly this host, or a usable address of the
+	// host's own lookup; never loopback / local
+	or := "ok"
+	inSet := false
+	for _, h := range hosts {
+		if strings.EqualFold(h, host) {
+			inSet = true
+		}
+	}
+	for _, a := range addrs {
+		from := false
+		for _, e := range extras {
+			if ad, ok := netip.AddrFromSlice(e.ip); ok && ad.Unmap() == a && strings.EqualFold(e.owner, host) && inSet &&
+				oShared(e.owner, qname) >= level && ((e.typ == "A" && !v6lookup) || (e.typ == "AAAA" && v6lookup && ipv6)) {
+				from = true
+			}
+		}
+		for _, e := range subAbs {
+			if ad, ok := netip.AddrFromSlice(e.ip); ok && ad.Unmap() == a && e.typ != "X" && sub.asked > 0 {
+				from = true
+			}
+		}
+		switch {
+		case oLoopback(a):
+			or = fail("nslookup/loopback-address", "%s", a)
+		case ownIfaces[a.Unmap()]:
+			or = fail("nslookup/local-interface-address", "%s", a)
+		case !from:
+			or = fail("nslookup/address-from-neither-accepted-glue-nor-own-lookup", "host=%s addr=%s", host, a)
+		}
+	}
+	tags := "nt,nslookup"
+	if sub.asked == 0 {
+		tags += ",nslookup-cached"
+	}
+	return vlib.Res{Impl: impl, Oracle: or, Tags: tags}
+}
+
 // ---------------------------------------------------------------- the alias chase (Cache.additionalAnswer)
 
 type chRR struct {
